@@ -119,6 +119,9 @@ typedef struct vw_world {
 	int verbose;
 	int sanitizer_reports;       /* ASan/UBSan reports seen so far */
 	char last_report[256];
+	int direct;                  /* 1 while the harness calls image code directly as process W.cur */
+	void *direct_jmp;            /* jmp_buf* for exit() in direct mode */
+	int direct_exit_code;
 	int watchdog_s;              /* wall-clock seconds allowed per vw_run call, 0=off */
 } vw_world;
 
@@ -153,6 +156,10 @@ int  vw_run_until(int64_t t);          /* run all events with time <= t; leaves 
 int  vw_run_quiescent(int64_t maxadvance); /* run while some process is runnable now (no time advance) */
 int64_t vw_next_time(void);            /* time of the next timed event / deadline, VW_NEVER if none */
 int  vw_alive(int proc);
+
+/* direct calls of image functions from the harness, on the harness stack, as process p */
+void vw_direct_begin(int p, void *jmpbuf);
+void vw_direct_end(void);
 
 /* state hashing */
 void vw_hash_world(uint64_t out[2], int include_stacks);
